@@ -176,6 +176,7 @@ type rtState struct {
 	ops      map[string]*rtOp
 	list     []*rtOp
 	byReply  map[*node.Reply]*rtAtt
+	awaited  map[string]bool // conn/stream of workload replies just delivered, until exec takes them
 	timeout  time.Duration
 	exact    bool
 	armNI    bool
@@ -446,7 +447,6 @@ var rtAttRe = regexp.MustCompile(`(tok-[0-9]+-[0-9]+) #([0-9]+)`)
 func runRetry(e *Env) {
 	k := e.K
 	tp := k.Tape
-	InstallHooks(k)
 	faultsOn := !e.NoFaults
 
 	// ---- swarm configuration (index 0 = boring) ----
@@ -472,13 +472,30 @@ func runRetry(e *Env) {
 	e.Note("armIgnoreNil", armIgn)
 
 	cl := node.NewCluster(k, nHosts)
-	st := &rtState{k: k, cl: cl, ops: map[string]*rtOp{}, byReply: map[*node.Reply]*rtAtt{}, timeout: timeout,
+	st := &rtState{k: k, cl: cl, ops: map[string]*rtOp{}, byReply: map[*node.Reply]*rtAtt{}, awaited: map[string]bool{}, timeout: timeout,
 		exact: !relaxed, armNI: armNI, armIgn: armIgn, faultsOn: faultsOn}
 	var addrs []string
 	for _, h := range cl.Hosts {
 		addrs = append(addrs, h.Addr)
 	}
 	hp := &rtHostPolicy{st: st, hosts: map[string]*gocql.HostInfo{}, down: map[string]bool{}}
+	// Yield hook: only the point right after exec has taken the response of a WORKLOAD
+	// request is routed to the kernel. Heartbeats of several connections hit the same points
+	// within one quiescence window, which would make "the Nth occurrence" of the park plan
+	// depend on the Go scheduler.
+	gocql.VerifHook = func(point string, c *gocql.Conn, stream int) {
+		if point != "exec.gotResp" {
+			return
+		}
+		key := fmt.Sprintf("%s/s%d", ConnName(c), stream)
+		st.mu.Lock()
+		ok := st.awaited[key]
+		delete(st.awaited, key)
+		st.mu.Unlock()
+		if ok {
+			k.Yield(point, key)
+		}
+	}
 
 	cfg := BaseConfig(cl, addrs...)
 	gocql.VerifDisableControlConn(cfg, true)
@@ -523,7 +540,11 @@ func runRetry(e *Env) {
 			}
 			if tp.Chance(2, 5) {
 				pl.specK = 1 + tp.Next(3)
-				pl.specDelay = []time.Duration{10 * time.Millisecond, 50 * time.Millisecond, 200 * time.Millisecond, time.Second}[tp.Next(4)]
+				// a few odd microseconds on top, so that the k-th tick never falls on the very
+				// instant at which a request timeout started in the same window expires (nothing
+				// orders two timers that tie on the fake clock)
+				pl.specDelay = []time.Duration{10*time.Millisecond + 7*time.Microsecond, 50*time.Millisecond + 11*time.Microsecond,
+					200*time.Millisecond + 13*time.Microsecond, time.Second + 17*time.Microsecond}[tp.Next(4)]
 			}
 			// host order: a tape-chosen permutation of the nodes
 			rest := append([]string(nil), addrs...)
@@ -540,6 +561,17 @@ func runRetry(e *Env) {
 
 	// ---- node behaviour ----
 	valMeta := &cqlspec.RowsMeta{GlobalSpec: true, Columns: []cqlspec.ColSpec{{Keyspace: "ks", Table: "t", Name: "v", Type: cqlspec.ColType{ID: cqlspec.TVarchar}}}}
+	// Requests are only queued while the nodes consume their inboxes (the order in which
+	// connections are visited follows the dial order, which follows a map iteration in
+	// Session.init); outcomes are drawn afterwards in a canonical order.
+	type rtArrival struct {
+		sc    *node.SConn
+		rec   *node.ReqRec
+		token string
+		cons  uint16
+		batch bool
+	}
+	var pending []rtArrival
 	cl.App = func(sc *node.SConn, rec *node.ReqRec) {
 		rq := rec.Req
 		var stmt string
@@ -557,13 +589,15 @@ func runRetry(e *Env) {
 			return
 		}
 		token := tokenRe.FindString(stmt)
-		st.mu.Lock()
-		op := st.ops[token]
-		st.mu.Unlock()
-		if op == nil {
+		if st.ops[token] == nil {
 			cl.SendError(sc, rec, cqlspec.ErrInvalid, "no token", node.Auto)
 			return
 		}
+		pending = append(pending, rtArrival{sc: sc, rec: rec, token: token, cons: cons, batch: rq.Header.Opcode == cqlspec.OpBatch})
+	}
+	handle := func(ar rtArrival) {
+		sc, rec, token, cons := ar.sc, ar.rec, ar.token, ar.cons
+		op := st.ops[token]
 		now := k.SimTime()
 		st.mu.Lock()
 		att := &rtAtt{idx: len(op.atts), host: sc.Host.Addr, nonce: sc.Host.Nonce, sc: sc, step: rec.Step, at: now, stream: rec.Stream, cons: cons}
@@ -621,7 +655,7 @@ func runRetry(e *Env) {
 			k.Fault("outcome.no-reply")
 			r = cl.Send(sc, rec, &cqlspec.Response{Op: cqlspec.OpResult, Kind: cqlspec.KindVoid}, node.Drop, "NEVER "+label)
 		default:
-			if rq.Header.Opcode == cqlspec.OpBatch {
+			if ar.batch {
 				r = cl.Send(sc, rec, &cqlspec.Response{Op: cqlspec.OpResult, Kind: cqlspec.KindVoid}, node.Hold, "VOID "+label)
 			} else {
 				row := [][]cqlspec.Cell{{{Bytes: cqlspec.EncText(fmt.Sprintf("%s/%s/%d", token, sc.Host.Nonce, att.idx))}}}
@@ -633,6 +667,23 @@ func runRetry(e *Env) {
 		st.byReply[r] = att
 		st.mu.Unlock()
 		k.Rec("attempt %s #%d host=%s conn=%s stream=%d cons=%d outcome=%d %s", token, att.idx, att.host, sc.C.Name, rec.Stream, cons, kind, att.detail)
+	}
+	process := func() {
+		cl.Process()
+		sort.SliceStable(pending, func(i, j int) bool {
+			a, b := pending[i], pending[j]
+			if a.token != b.token {
+				return a.token < b.token
+			}
+			if a.sc.C.Name != b.sc.C.Name {
+				return a.sc.C.Name < b.sc.C.Name
+			}
+			return a.rec.Stream < b.rec.Stream
+		})
+		for _, ar := range pending {
+			handle(ar)
+		}
+		pending = pending[:0]
 	}
 
 	// ---- boot (fault free, FIFO) ----
@@ -747,6 +798,7 @@ func runRetry(e *Env) {
 		st.mu.Lock()
 		if a := st.byReply[r]; a != nil && !a.dlv {
 			a.dlv, a.dlvStep, a.dlvAt = true, step, now
+			st.awaited[fmt.Sprintf("%s/s%d", a.sc.C.Name, a.stream)] = true
 			if a.dlvAt-a.at >= timeout {
 				k.Probe("reply-after-request-timeout")
 			}
@@ -763,13 +815,15 @@ func runRetry(e *Env) {
 			}
 			per[r.SC]++
 			r := r
-			acts = append(acts, kernel.Action{Key: fmt.Sprintf("deliver:%s:%06d:s%d:%s", r.SC.C.Name, r.Seq, r.Stream, r.Label), Rank: 1, Weight: cl.DeliverWeight, Do: func() { deliver(r) }})
+			acts = append(acts, kernel.Action{Key: fmt.Sprintf("deliver:%s:%s", r.SC.C.Name, r.Label), Rank: 1, Weight: cl.DeliverWeight, Do: func() { deliver(r) }})
 		}
 		return acts
 	})
 	deliverAll := func() {
-		for len(cl.Held()) > 0 {
-			deliver(cl.Held()[0])
+		held := append([]*node.Reply(nil), cl.Held()...)
+		sort.SliceStable(held, func(i, j int) bool { return held[i].Label < held[j].Label })
+		for _, r := range held {
+			deliver(r)
 		}
 	}
 	if faultsOn {
@@ -846,19 +900,19 @@ func runRetry(e *Env) {
 			return acts
 		})
 	}
-	k.PreStep = append(k.PreStep, cl.Process)
+	k.PreStep = append(k.PreStep, process)
 
 	k.Loop(nil)
 
 	// ---- settle: no more faults, every request succeeds, FIFO delivery ----
 	k.BeginSettle()
 	bound := 20*timeout + 20*time.Second
-	okDone := k.SettleUntil(bound, 20*time.Millisecond, func() { cl.Process(); deliverAll() }, k.TasksDone)
+	okDone := k.SettleUntil(bound, 20*time.Millisecond, func() { process(); deliverAll() }, k.TasksDone)
 	if !okDone && k.Violation() == nil {
 		k.Violate("C13", "C13/no-result", "after faults stopped, calls still blocked after %v simulated: %v", bound, k.RunningOps())
 	}
 	// let executions that lost a speculative race, and late requests, show themselves
-	k.SettleUntil(2*timeout+2500*time.Millisecond, 50*time.Millisecond, func() { cl.Process(); deliverAll() }, func() bool { return false })
+	k.SettleUntil(2*timeout+2500*time.Millisecond, 20*time.Millisecond, func() { process(); deliverAll() }, func() bool { return false })
 
 	// ---- final oracles ----
 	if k.Violation() == nil {
@@ -883,7 +937,7 @@ func runRetry(e *Env) {
 	}
 	closed := make(chan struct{})
 	go func() { sess.Close(); close(closed) }()
-	k.SettleUntil(30*time.Second, 20*time.Millisecond, func() { cl.Process(); deliverAll() }, func() bool {
+	k.SettleUntil(30*time.Second, 20*time.Millisecond, func() { process(); deliverAll() }, func() bool {
 		select {
 		case <-closed:
 			return true
